@@ -110,22 +110,28 @@ def main : IO Unit := do
           match splitOnTok rest ";" with
           | seqs :: ents =>
             let seqA : Array Bool := (seqs.map (· == "1")).toArray
-            let entries : List (Option Entry) := ents.map fun e =>
+            -- an entry written `s:<alias> ! !` is MALFORMED (a priority that is not an int / an entry that is not a mapping)
+            let entries : List (Option RawEntry) := ents.map fun e =>
               match e with
+              | [al, "!", "!"] => (parseAlias al).map fun a => (⟨⟨a, none, none⟩, false⟩ : RawEntry)
               | [al, p, sq] => (parseAlias al).map fun a =>
-                  (⟨a, if p == "-" then none else p.toInt?, if sq == "-" then none else some (sq == "1")⟩ : Entry)
+                  (⟨⟨a, if p == "-" then none else p.toInt?, if sq == "-" then none else some (sq == "1")⟩, true⟩ : RawEntry)
               | _ => none
             match entries.mapM id with
             | none => IO.println s!"{qid} PARSE"
             | some es =>
-              match applyConfig nm ⟨prioF, fun m => seqA.getD m false⟩ es with
-              | .error .unknownAlias => IO.println s!"{qid} CFG REFUSED alias"
-              | .error .ambiguous => IO.println s!"{qid} CFG REFUSED ambiguous"
-              | .ok a' =>
-                let ps := " ".intercalate ((List.range n).map fun m => toString (a'.prio m))
-                let ss := " ".intercalate ((List.range n).map fun m => if a'.seq m then "1" else "0")
-                let cps := " ".intercalate ((List.range n).map fun m => toString (cpAll g a'.prio m))
-                IO.println s!"{qid} CFG OK P {ps} S {ss} CP {cps}"
+              let a0 : Attr := ⟨prioF, fun m => seqA.getD m false⟩
+              -- the state after the call (GM.reconfigure): a refused configuration leaves everything as it was
+              let a' := reconfigure nm a0 es
+              let ps := " ".intercalate ((List.range n).map fun m => toString (a'.prio m))
+              let ss := " ".intercalate ((List.range n).map fun m => if a'.seq m then "1" else "0")
+              let cps := " ".intercalate ((List.range n).map fun m => toString (cpAll g a'.prio m))
+              let verdict := match applyRaw nm a0 es with
+                | .error (.cfg .unknownAlias) => "REFUSED alias"
+                | .error (.cfg .ambiguous) => "REFUSED ambiguous"
+                | .error .malformed => "REFUSED malformed"
+                | .ok _ => "OK"
+              IO.println s!"{qid} CFG {verdict} P {ps} S {ss} CP {cps}"
           | [] => IO.println s!"{qid} PARSE"
         | "valid" :: rest =>
           match splitOnTok rest ";" with
